@@ -18,6 +18,10 @@ CLAIMS = {
 }
 NA = {
 }
+CLAIMS['C13'] = dict(level='proof', ref='DESIGN.md 7 (C13)',
+   text='Every public method of the real mutex_db (both key kinds, NDEBUG and assertion-enabled extractions) is proved against: the inner index is touched only while the index mutex is held by the caller (inner calls replaced by contracts that require it), the mutex is taken exactly once and released on every normal and exceptional exit, except get on a hit, which returns a handle that owns the lock (owns_lock == has_value == mutex still held). key_found and its debug assertion included.',
+   note='Trusted: std::mutex/pthread_mutex give mutual exclusion and happens-before (ghost owner flag model, lock never fails); linearizability is the textbook consequence of mutual exclusion plus C01 and is not mechanised; the wrapped index operations are covered by C01/C02, not here.',
+   technique='Hoare-style contracts on the real mutex_db methods with a ghost lock-owner state; callee contracts for the wrapped index; CBMC (SAT)')
 CLAIMS['C07'] = dict(level='proof', ref='DESIGN.md 4.5, 7 (C07)',
    text='Rely/guarantee proof on the extracted real optimistic_lock methods: every atomic access is preceded by an arbitrary burst of other threads\' steps allowed by the rely; every own store/CAS is classified (acquire/release/obsolete) and checked against the guarantee and the lock-word invariant. Client theorems as postconditions: active write guard = unique holder and upgrade only if no writer since the section was opened (T1); successful check/unlock = snapshot, no overlapping writer (T2); obsolete final for new sections, open sections and upgrades (T3); nothing held after guard lifetime, debug read-section counter balanced (T4). NDEBUG and assertion-enabled extractions.',
    note='Assumes sequentially consistent atomics (memory orders dropped), fewer than 2^60 acquisitions (no version wrap), soundness of the R/G rule; the spin loop of try_read_lock is cut with invariant I (partial correctness, no termination claim). Counterexamples are interleavings: reported with no-failing-input-found.',
